@@ -59,13 +59,37 @@ class Scaler(Transformer):
             raise TypeError(f"{name} must be an xarray DataArray or Dataset")
 
     def _verify_dims(self, X):
-        """Check that scaling will not broadcast X to dimensions it does not have."""
+        """Check that scaling will neither broadcast X to dimensions it does not have nor
+        cut it down to the fitted labels (arithmetic aligns by label with an inner join)."""
         fitted = (self.mean_, self.std_, self.coslat_weights_, self.weights_)
-        missing = {dim for param in fitted for dim in param.dims} - set(X.dims)
-        if missing:
-            raise ValueError(
-                f"Cannot transform data. Dimensions {sorted(map(str, missing))} are missing."
-            )
+        if isinstance(X, xr.Dataset):
+            # Variables may have different dimensions: compare variable by variable
+            pairs = [
+                (
+                    X[var],
+                    [
+                        param[var] if isinstance(param, xr.Dataset) else param
+                        for param in fitted
+                        if not isinstance(param, xr.Dataset) or var in param.data_vars
+                    ],
+                )
+                for var in X.data_vars
+            ]
+        else:
+            pairs = [(X, fitted)]
+        for data, params in pairs:
+            missing = {dim for param in params for dim in param.dims} - set(data.dims)
+            if missing:
+                raise ValueError(
+                    f"Cannot transform data. Dimensions {sorted(map(str, missing))} are missing."
+                )
+            for param in params:
+                for dim in param.dims:
+                    if dim in param.indexes and dim in data.indexes:
+                        if not data.indexes[dim].equals(param.indexes[dim]):
+                            raise ValueError(
+                                f"Cannot transform data. Coordinates of dimension {dim!r} differ from the fitted data."
+                            )
 
     def _process_weights(self, X: DataVarBound, weights) -> DataVarBound:
         if weights is None:
